@@ -423,6 +423,12 @@ def dirClause (x : LangId) : String :=
   | some d => s!"must {dirName d}"
   | none => "free"
 
+/-- the independent model of C14's quantifier: the decision over the layout the CLDR layout files determine and the CLDR
+    likelySubtags dictionary (a listed script decides; an RTL-listed language: the direction of the likely script of
+    `maximize(language, -, region)`; otherwise left-to-right) -/
+def dirRef (x : LangId) : String :=
+  s!"ref {dirName (Spec.direction true cldrFind cldrDerivedLayout x.language x.script x.region)}"
+
 /-- `from_raw_parts_unchecked(l, s, r, Some(Box::new([])))` for an identifier without variants -/
 def someEmpty (x : LangId) : LangId := if x.variantList.isEmpty then { x with variants := some [] } else x
 
@@ -574,7 +580,7 @@ def answer (line : String) : String :=
             | .panic => "panic"
           -- `dir` answers for both builds: with \t between them the checker picks by feature set; third column:
           -- the unconditional clauses of C14 evaluated on the layout the CLDR files determine
-          s!"{one true}\t{one false}\t{dirClause x}"
+          s!"{one true}\t{one false}\t{dirClause x}\t{dirRef x}"
         | .err e => s!"{errCode e}\t{errCode e}"
         | .panic => "panic"
       | none => "bad"
